@@ -104,7 +104,7 @@ JudgeUpdates(desc, e) ==
   THEN "update.importable"
   ELSE ""
 
-(* the describe record d = [desc, expect |-> [m |-> [wires, iface, features]], iface, features, *)
+(* the describe record d = [desc, expect |-> [m |-> [wires, iface, features, units]], iface, features, units, *)
 (*                          stable, strict, expdesc (Null if not known)]                         *)
 Structure(d) ==
   IF ~d.strict THEN "StrictJSON"
@@ -113,6 +113,7 @@ Structure(d) ==
   ELSE IF \E m \in DOMAIN d.desc : DOMAIN d.desc[m] # SeqSet(d.expect[m].wires) THEN "ExactlyExported.accessibles"
   ELSE IF \E m \in DOMAIN d.desc : d.iface[m] # d.expect[m].iface \/ d.features[m] # d.expect[m].features
        THEN "InterfaceClassMatches"
+  ELSE IF \E m \in DOMAIN d.desc : d.units[m] # d.expect[m].units THEN "MainUnitSubstituted"
   ELSE IF d.expdesc # Null /\ d.expdesc # d.desc THEN "DescriptionFaithful"
   ELSE ""
 
